@@ -66,7 +66,7 @@ DYADIC_BETAS = [0.0, 0.125, 0.25, 0.375, 0.5, 0.625, 0.75, 0.875]
 
 def gen_case(rng, cid, families=None, kinds=('mh', 'pt'), allow_saveload=True,
              allow_reset=False, max_ops=8, allow_slow=True, ntemps_choices=(2, 3, 4),
-             allow_dynamic=False, max_run=6):
+             allow_dynamic=False, max_run=6, window_choices=None):
     c = Case(cid)
     c.kind = rng.choice(kinds)
     c.nchains = rng.choice([1, 1, 2, 3])
@@ -96,7 +96,8 @@ def gen_case(rng, cid, families=None, kinds=('mh', 'pt'), allow_saveload=True,
             dom = F.domain_for(kind, rng, j)
             c.params.append((name, kind if kind != 'sphere' else ('sphere%d' % j), dom))
             names.append(name)
-        kw = {'window': rng.randint(3, 9), 'start_step': rng.choice([1, 1, 2, 3])}
+        kw = {'window': rng.choice(window_choices) if window_choices else rng.randint(3, 9),
+              'start_step': rng.choice([1, 1, 2, 3])}
         if allow_slow and rng.random() < 0.35:
             kw['jump_interval'] = rng.choice([2, 3])
         if fam.startswith('at_adaptive') and rng.random() < 0.4:
